@@ -248,18 +248,9 @@ def case_api(ctx, inp):
         if not hasattr(r, "_meta"):
             return
         sigs = []
-        if i["kind"] in ("max", "min") and any(n == 0 for n in i["lens"]) and len(i["lens"]) > 1:
-            sigs.append((lambda pr, meta, obj: [p[0] for p in pr] == ["dtypes"] and "int" in str(pr[0][1]) and "float" in str(pr[0][2]),
-                         "meta:int-minmax:empty-partition:float64"))
-        if i["kind"] in ("max", "min") and any(n == 0 for n in i["lens"]) and len(i["lens"]) > 1 and not i["params"].get("skipna", True):
-            sigs.append((lambda pr, meta, obj: [p[0] for p in pr] == ["dtypes"] and pr[0][1] == ["object"] and pr[0][2] == ["float64"],
-                         "meta:minmax:skipna=False:empty-partition:object-vs-float64"))
         if i["params"].get("axis") == 1 and not i.get("column") and i["kind"] in ("sum", "prod", "min", "max", "mean", "var", "std", "sem"):
             sigs.append((lambda pr, meta, obj: [p[0] for p in pr] == ["dtypes"] and len(obj) == 0 and pr[0][1] == ["object"] and pr[0][2] == ["float64"],
                          "meta:axis1-mixed-bool:empty-partition:float64-vs-object"))
-        if i["kind"] == "var" and i["params"].get("axis") == 1 and not i.get("column"):
-            sigs.append((lambda pr, meta, obj: [p[0] for p in pr] == ["dtypes"] and pr[0][1] == ["float64"] and pr[0][2] == ["object"],
-                         "meta:var-axis1:mixed-bool:object-vs-float64"))
         check_collection(ctx, "c37 %s" % i["kind"], r, sigs)
         ctx.branch("api-c37-" + i["kind"])
     elif src == "c46":
@@ -299,10 +290,7 @@ def case_api(ctx, inp):
         except Exception as e:
             ctx.note("rejected:" + type(e).__name__)
             return
-        sigs = []
-        if how == "size" and i["split_out"] > 1:
-            sigs.append((lambda pr, meta, obj: [p[0] for p in pr] == ["name"], "meta:groupby-size-split_out:name-nan"))
-        check_collection(ctx, "groupby %s split_out=%s" % (how, i["split_out"]), r, sigs)
+        check_collection(ctx, "groupby %s split_out=%s" % (how, i["split_out"]), r)
         ctx.branch("api-groupby-" + how)
 
 
@@ -311,7 +299,7 @@ CASES = {"model": case_model, "api": case_api}
 
 def generate(ctx):
     rng = ctx.rng
-    # defect #27 first (cheap, always reached)
+    # DESIGN.md 6 #27 (fixed 109c7c6) first: cheap regression case
     yield "api", {"source": "groupby", "inp": {"c": ["x", "y", "x", "z"], "v": [1, 2, 3, 4], "w": [0, 1, 0, 1], "nparts": 2,
                                                "how": "size", "split_out": 2}}
     streams = []
